@@ -132,6 +132,12 @@ def run(tier: str, seed: int, t0: float) -> int:
             for nt in tbs:
                 opdrive.ev_set_block_type(b2, rd, di, 0, rd.content.size, nt, {a: 2 for a in nt.attrs} or None)
         jobs.append((b2, f"T markops[{name}]"))
+    # ---- T: the replace-family / mark operations the repository's own test-suite performs (tracer plug-in)
+    from .. import suitetrace
+    sjobs, note = suitetrace.replay_calls("mark")
+    stats.notes.append(note)
+    stats.count("testsuite_calls", sum(len(bb.events) for bb, _ in sjobs))
+    jobs.extend(sjobs)
     vs = trace.validate_many([("Trace_Ops", bb, what, {"prop": "C13"}) for bb, what in jobs], stats)
     for (bb, what), verdicts in zip(jobs, vs):
         for e in bb.events:
